@@ -192,10 +192,16 @@ def run_property(prop_id, spec, program, roles, tier, seed, rules_registry, t0, 
     rule_ids = list(spec['rules'])
     if tier == 'thorough':
         rule_ids += list(spec.get('thorough_rules', []))
+    errors = []
     for rule_id in rule_ids:
         fn, doc = rules_registry[rule_id]
-        run_rule(ctx, views, rule_id, fn, doc, known_for)
+        try:
+            run_rule(ctx, views, rule_id, fn, doc, known_for)
+        except AnalysisError as e:
+            # an anchor lost by one rule must not hide what the other rules of the property find
+            errors.append(e)
     ctx.current_rule = None
+    ctx.rule_errors = errors
     new = []
     reported_known = []
     for v in ctx.violations:
@@ -208,6 +214,8 @@ def run_property(prop_id, spec, program, roles, tier, seed, rules_registry, t0, 
             reported_known.append((v, match))
         else:
             new.append(v)
+    if errors and not new:
+        raise errors[0]
     return ctx, new, reported_known
 
 
